@@ -10,9 +10,9 @@ Crash after a checkpoint, part 5: the checkpoint invariant `Ckpt` and the flush 
   description is in the data file, clean.
 * **`Ckpt`**: a checkpointed database - what a flush and what start-up recovery leave behind: the store
   abstracts to the plain database, every record of the (never truncated) log is applied and below the
-  LSN counter, nothing is dirty, the header and every page of the catalog are in the data file.
+  LSN counter, no INSERT key of the log is beyond the row-id counter, nothing is dirty, the header and every page of the catalog are in the data file.
 * `ckpt_of_flushed`: the flush of a store with these properties (minus "nothing dirty") gives a `Ckpt`.
-* `spec_run_ckpt`: what a `SpecRun` from a database with an applied log keeps true.
+* `spec_run_ckpt`, `spec_run_keys`: what a `SpecRun` from a database with an applied log keeps true.
 -/
 set_option autoImplicit false
 namespace Mkdb.Store
@@ -98,8 +98,11 @@ theorem flush_ckpt {s : Store} {pt sch : Levels} {tbls : List (Bytes × Levels)}
 /-- **A checkpointed database**: the state a flush, and start-up recovery, leave behind.  The store
 abstracts (up to row ids) to the plain database `sdb` with the catalog description `pt`, `sch`, `tbls`;
 the side conditions of the replay theorems hold (`PtSelf`, `FreshM`, `MemFiled`); the log - which is
-never truncated - consists of records that are all applied (`AppliedC`) and below the LSN counter; the
-header is in the data file; every page of the catalog is in the data file and clean. -/
+never truncated - consists of records that are all applied (`AppliedC`) and below the LSN counter, and
+no INSERT record carries a key beyond the row-id counter (`keys`: recovery raises the counter to the
+key of every INSERT record of the log, skipped or not; with `keys` the replay of the old log leaves the
+header alone); the header is in the data file; every page of the catalog is in the data file and
+clean. -/
 structure Ckpt (sch : Levels) (db : Engine.DB) (sdb : Spec.SDB) (pt : Levels) (tbls : List (Bytes × Levels)) :
     Prop where
   abs : AbsV db.store pt sch tbls sdb
@@ -108,6 +111,7 @@ structure Ckpt (sch : Levels) (db : Engine.DB) (sdb : Spec.SDB) (pt : Levels) (t
   filed : MemFiled db.store
   log : ∀ r ∈ db.wal, AppliedC pt sch tbls r
   lsn : ∀ r ∈ db.wal, r.lsn < db.store.hdr.nextLSN
+  keys : ∀ r ∈ db.wal, r.op = c_OpInsert → r.cell ≤ db.store.hdr.lastKey
   dhdr : db.store.dhdr = db.store.hdr
   disk : OnDisk db.store pt sch tbls
 
@@ -123,7 +127,8 @@ theorem Ckpt.applied {sch : Levels} {db : Engine.DB} {sdb : Spec.SDB} {pt : Leve
 theorem ckpt_of_flushed_gen {sch : Levels} {wal : List WalRec} {s s' : Store} {sdb : Spec.SDB}
     {pt : Levels} {tbls : List (Bytes × Levels)} (hA : AbsV s pt sch tbls sdb) (hself : PtSelf pt)
     (hfr : FreshM s tbls) (hmf : MemFiled s) (hlog : ∀ r ∈ wal, AppliedC pt sch tbls r)
-    (hlsn : ∀ r ∈ wal, r.lsn < s.hdr.nextLSN) (hsy : Synced s pt sch tbls) {order : List Nat}
+    (hlsn : ∀ r ∈ wal, r.lsn < s.hdr.nextLSN)
+    (hkeys : ∀ r ∈ wal, r.op = c_OpInsert → r.cell ≤ s.hdr.lastKey) (hsy : Synced s pt sch tbls) {order : List Nat}
     (hfl : flushPages order s = .ok () s') :
     Ckpt (clean sch) { store := s', wal := wal } sdb (clean pt) (cleanT tbls) := by
   obtain ⟨s2, e, hA', hh, hdh, hf', hd⟩ := flush_ckpt hA hmf hsy order
@@ -137,6 +142,7 @@ theorem ckpt_of_flushed_gen {sch : Levels} {wal : List WalRec} {s s' : Store} {s
     filed := hf'
     log := fun r hr => (hlog r hr).clean
     lsn := fun r hr => by show r.lsn < s'.hdr.nextLSN; rw [hh]; exact hlsn r hr
+    keys := fun r hr hop => by show r.cell ≤ s'.hdr.lastKey; rw [hh]; exact hkeys r hr hop
     dhdr := by show s'.dhdr = s'.hdr; rw [hh, hdh]
     disk := hd }
 
@@ -144,10 +150,11 @@ theorem ckpt_of_flushed_gen {sch : Levels} {wal : List WalRec} {s s' : Store} {s
 theorem ckpt_of_flushed {sch : Levels} (hcs : clean sch = sch) {wal : List WalRec} {s s' : Store} {sdb : Spec.SDB}
     {pt : Levels} {tbls : List (Bytes × Levels)} (hA : AbsV s pt sch tbls sdb) (hself : PtSelf pt)
     (hfr : FreshM s tbls) (hmf : MemFiled s) (hlog : ∀ r ∈ wal, AppliedC pt sch tbls r)
-    (hlsn : ∀ r ∈ wal, r.lsn < s.hdr.nextLSN) (hsy : Synced s pt sch tbls) {order : List Nat}
+    (hlsn : ∀ r ∈ wal, r.lsn < s.hdr.nextLSN)
+    (hkeys : ∀ r ∈ wal, r.op = c_OpInsert → r.cell ≤ s.hdr.lastKey) (hsy : Synced s pt sch tbls) {order : List Nat}
     (hfl : flushPages order s = .ok () s') :
     Ckpt sch { store := s', wal := wal } sdb (clean pt) (cleanT tbls) := by
-  have := ckpt_of_flushed_gen hA hself hfr hmf hlog hlsn hsy hfl
+  have := ckpt_of_flushed_gen hA hself hfr hmf hlog hlsn hkeys hsy hfl
   rw [hcs] at this
   exact this
 
@@ -156,7 +163,7 @@ theorem Ckpt.flush_again {sch : Levels} {db : Engine.DB} {sdb : Spec.SDB} {pt : 
     {tbls : List (Bytes × Levels)} (h : Ckpt sch db sdb pt tbls) {order : List Nat} {s' : Store}
     (hfl : flushPages order db.store = .ok () s') : Ckpt sch { store := s', wal := db.wal } sdb pt tbls := by
   obtain ⟨e1, e2, e3⟩ := h.disk.clean_eq
-  have := ckpt_of_flushed e2 h.abs h.self h.fresh h.filed h.log h.lsn h.disk.synced hfl
+  have := ckpt_of_flushed e2 h.abs h.self h.fresh h.filed h.log h.lsn h.keys h.disk.synced hfl
   rw [e1, e3] at this
   exact this
 
@@ -187,5 +194,17 @@ theorem spec_run_ckpt (sch : Levels) {db dbN : Engine.DB} {sdb sdbN : Spec.SDB} 
   rw [e1] at a1
   rw [e2] at o2
   exact ⟨ptN, tblsN, stmtsM, logs, hrun, hw, hAN, by rw [hw]; exact a1, by rw [hw]; exact a2, a3, o2⟩
+
+/-- a run of statements from a database none of whose logged INSERT keys is beyond the row-id counter
+ends in such a database (`live_run_keys`) -/
+theorem spec_run_keys (sch : Levels) {db dbN : Engine.DB} {sdb sdbN : Spec.SDB} {stmts : List EStmt}
+    (run : SpecRun sch db sdb stmts dbN sdbN) (pt : Levels) (tbls : List (Bytes × Levels))
+    (hA : AbsV db.store pt sch tbls sdb)
+    (hkeys : ∀ r ∈ db.wal, r.op = c_OpInsert → r.cell ≤ db.store.hdr.lastKey) :
+    ∀ r ∈ dbN.wal, r.op = c_OpInsert → r.cell ≤ dbN.store.hdr.lastKey := by
+  obtain ⟨_, _, _, logs, hrun, hw, _⟩ := spec_run_live sch run pt tbls hA
+  obtain ⟨_, habs0, _⟩ := hA
+  rw [hw]
+  exact (live_run_keys sch hrun pt db.wal habs0.cat hkeys).1
 
 end Mkdb.Store
